@@ -279,7 +279,10 @@ class ReplacementFrontend(ConstrainedFrontend):
                         self.add_replacement(old, rold.intersection(new))
 
         added = super()._add(constraints)
-        cr = self._replace_list(added)
+        # A constraint that its own replacement (or an earlier one) turns into True still has to reach the actual
+        # frontend in its original form: constraints that were added before the replacement existed mention the
+        # replaced expression, and the actual frontend has no other way of knowing what it was replaced with.
+        cr = tuple(c if r.op == "BoolV" and r.args[0] is True else r for c, r in zip(added, self._replace_list(added)))
         if not self._allow_symbolic and any(c.symbolic for c in cr):
             raise ClaripyFrontendError(
                 "symbolic constraints made it into ReplacementFrontend with allow_symbolic=False"
